@@ -2639,7 +2639,9 @@ def rule_F19(prog):
                         problems.append("the two neighbours are not combined by max / a comparison")
         r.ob(not problems, "lcs::make_table recurrence: %s" % (problems or "diagonal+1 / max(down, right)"))
         if problems:
-            r.find(fn.path, "recurrence", "lcs::make_table: " + "; ".join(problems), file=fn.file, line=fn.line)
+            # no table read recognised in either branch (the lookups moved into a closure / helper): shape lost, undecided
+            lost_shape = all("reads []" in p_ for p_ in problems if "reads" in p_) and any("reads" in p_ for p_ in problems)
+            r.find(fn.path, "recurrence", "lcs::make_table: " + "; ".join(problems), file=fn.file, line=fn.line, undecided=lost_shape)
     return r
 
 
